@@ -78,23 +78,18 @@ Lemma target_text_table : forall q tg,
 Proof. intros q [n|t|s]; reflexivity. Qed.
 
 Lemma table_not_if_exists : forall q t rest, table_ok q t = true ->
-  kw_free q (match tschema t with Some s => s | None => tname t end) = true -> sp_or_end rest = true ->
+  kw_free q (match tschema t with s :: _ => s | [] => tname t end) = true -> sp_or_end rest = true ->
   strip_prefix "IF EXISTS " (render_table q t ++ rest) = None.
 Proof.
-  intros q [n [s|]] rest H Hk Hr; unfold table_ok in H; cbn [tname tschema] in *;
-    apply Bool.andb_true_iff in H as [Hn Hs]; unfold render_table; cbn [tname tschema];
-    change "IF EXISTS " with ("IF" ++ String " " "EXISTS ").
-  - rewrite sapp_assoc. apply name_not_kw; try reflexivity; auto.
-    intros ->. now destruct (kw_free_neq _ Hk).
-  - apply name_not_kw; try reflexivity; auto using sp_or_end_stops.
-    intros ->. now destruct (kw_free_neq _ Hk).
+  intros q t rest H Hk Hr. change "IF EXISTS " with ("IF" ++ String " " "EXISTS ").
+  apply table_not_kw; try reflexivity; auto. intros ->. now destruct (kw_free_neq _ Hk).
 Qed.
 
 Definition cluster_text (cl : option string) : string :=
   match cl with Some c => " ON CLUSTER " ++ fqq cluster_quote c | None => "" end.
 
 Lemma parse_drop_text : forall (q : quote) (k : dkind) (ie : bool) (t : table) (cl : option string),
-  table_ok q t = true -> kw_free q (match tschema t with Some s => s | None => tname t end) = true ->
+  table_ok q t = true -> kw_free q (match tschema t with s :: _ => s | [] => tname t end) = true ->
   (match cl with Some c => name_ok cluster_quote c | None => true end) = true ->
   parse_drop q cluster_quote
     ("DROP " ++ drop_kind_text k ++ " " ++ (if ie then "IF EXISTS " else "") ++ render_table q t ++ cluster_text cl)
